@@ -134,7 +134,7 @@ class Block:
                     self.err = " ".join(t[2:])
             elif k == "MSG":
                 if t[1] == "bank":
-                    self.msgs.append(("bank", dec(t[2]), dlist(t[3], dcoin)))
+                    self.msgs.append(("bank", dec(t[2]), tuple(dlist(t[3], dcoin))))
                 elif t[1] == "xfer":
                     self.msgs.append(("xfer", dec(t[2]), dec(t[3]), dcoin(t[4]), dec(t[5])))
                 else:
@@ -152,7 +152,7 @@ class Block:
             elif k == "BID3":
                 b = Bid(t[1:]); self.bids[b.key] = b
             elif k == "BID2":
-                self.bids[dec(t[1])] = ("v2", t[2:])
+                self.bids[dec(t[1])] = ("v2", tuple(t[2:]))
             elif k == "BIDX":
                 self.bids[dec(t[1])] = ("x", t[2])
             elif k == "CFG":
